@@ -90,6 +90,7 @@ type RunConfig struct {
 	All      bool
 	Workers  int
 	Verbose  bool
+	DumpObl  string
 }
 
 type FuncReport struct {
@@ -123,6 +124,9 @@ func discharge(fvs []*FuncVC, cfg RunConfig) {
 			for j := range ch {
 				q := j.fv.buildQuery(j.o)
 				j.o.Query = q
+				if cfg.DumpObl != "" && strings.Contains(j.o.Name, cfg.DumpObl) {
+					os.WriteFile("/tmp/govc_query.smt2", []byte(q), 0o644)
+				}
 				tmo := cfg.TimeoutS
 				if j.o.Probe {
 					tmo = 3 // a vacuity probe that is not answered quickly is inconclusive, not an alarm
